@@ -441,8 +441,8 @@ fn run_block(sim: &dyn Sim, tier: Tier, seed: u64, from: u64, to: u64, tz: &str,
     };
     if seen_viol.insert(run) {
       let plan = sim.gen_plan(seed, run, tier);
-      if hang && sim.hang_is_inconclusive(&plan) {
-        result.counters.inc("inconclusive.watchdog_expiry_under_storage_fault");
+      if hang && sim.hang_is_inconclusive(&plan, report.marker.as_deref()) {
+        result.counters.inc("inconclusive.watchdog_expiry");
       } else {
         let mut o = Outcome::default();
         o.violation = Some(death_violation(sim, &plan, &how, hang, report.marker.as_deref()));
@@ -508,7 +508,7 @@ pub fn exec_isolated(sim: &dyn Sim, doc: &Value, mode: &str, reseeds: u64, tz: &
     ChildEnd::Hung => {
       let mut o = Outcome::default();
       let plan = doc.get("plan").cloned().unwrap_or(Value::Null);
-      if !sim.hang_is_inconclusive(&plan) {
+      if !sim.hang_is_inconclusive(&plan, report.marker.as_deref()) {
         o.violation = Some(death_violation(sim, &plan, "watchdog", true, report.marker.as_deref()));
       }
       o
